@@ -80,7 +80,7 @@ def execute(cfg, chooser, want_trace=False):
     import nfc.llcp.llc as llc
     trace.install()
     s = sched.Sched(chooser, max_steps=20000, max_time=1000.0 + 60,
-                    trace=want_trace)
+                    trace=want_trace, free_switch=False)
     s.traced = frozenset(cfg.get('traced', ()))
     s.quiet = True
     rw_a, rw_b = cfg['rw']            # receive windows of A's and B's socket
@@ -294,8 +294,8 @@ def main(tier='quick', seed=0, part=None):
     if part in (None, 'bfs'):
         bfs_cov = c05_bfs.run_into(run, tier, seed)
     sched_cfgs = []
-    bound = 2 if tier == 'thorough' else 1
-    cap = 40000 if tier == 'thorough' else 3000
+    bound = 3 if tier == 'thorough' else 2
+    cap = 400000 if tier == 'thorough' else 30000
     if part in (None, 'sched'):
         sched_cfgs = configs(tier)
         for res in par.pmap(run_cfg, [(c, bound, cap)
@@ -307,8 +307,9 @@ def main(tier='quick', seed=0, part=None):
         "B->A exchange, close} up to the message budget, states deduplicated "
         "by a canonical dump of both controllers; sched: scenario = RW pair x "
         "message counts per direction x aggregation x optional busy-toggling "
-        "thread, every schedule with <= %d deviations after the connection is "
-        "established; distinct = distinct canonical state / (scenario, choice "
+        "thread, every schedule with <= %d deviations from the default schedule "
+        "(any non-default thread choice or a timer landing first) after the "
+        "connection is established; distinct = distinct canonical state / (scenario, choice "
         "list); non-trivial = at least one I PDU crossed the link" % bound)
     run.assumptions += [
         "NFC-DEP is replaced by a rendezvous MAC pair (sim/pairmac.py)",
